@@ -1,14 +1,15 @@
 """check configuration for C16 (loaded by lib/zvprops.py)"""
 
 PROP = {
- 'gen_tables': ['LevelText', 'EntryMeta'],
+ 'gen_tables': ['LevelText', 'EntryMeta', 'LevelColor'],
  'rule': 'ops: random entries × encoder configs (7 keys each empty/plain/hostile/duplicate; built-in, nil and no-op sub-encoders; time layouts incl. '
          'ones needing escapes; line endings) × With-chains (≤3) × call-site fields (every field kind; nested object/array/inline/dict/namespace '
          'marshalers to depth ≤4; hostile strings: invalid UTF-8, control bytes, quotes; NaN/Inf; boundary ints; failing marshalers, panicking / nil '
-         'Stringers and errors, unencodable reflected values); non-trivial = ≥2 fields+With levels; distinct = distinct canonical op JSON',
+         'Stringers and errors, unencodable reflected values); plus a systematic sub-encoder sweep: all 256 levels × the 4 level encoders (and nil / no-op fall-backs), ~80 boundary durations (unit boundaries of Duration.String, ±ms truncation boundaries, MinInt64/MaxInt64) × every duration encoder as fields and array elements, boundary instants × EpochNanos, 21 caller path shapes (0/1/2/many segments, empty, Windows-style) × 14 lines (0, negative, int64 extremes) × Full/Short/no-op caller encoders; non-trivial = ≥2 fields+With levels; distinct = distinct canonical op JSON',
  'assumptions': ['strconv float text, time.Format text, base64 text and encoding/json output of reflected values are opaque leaves supplied by the harness (stdlib only)',
-                 'sub-encoder functions are parameters: the op carries what each configured function appended, observed on a recording PrimitiveArrayEncoder'],
+                 'sub-encoder functions: the integer/text-exact built-ins (Lowercase/Capital/LowercaseColor/CapitalColor level, Nanos/Millis/String duration, EpochNanos time, Full/Short caller, FullName or nil name) are COMPUTED by the model from the raw entry values (Model/SubEnc.lean; the harness-observed value is ignored); the float encoders (Epoch, EpochMillis time, Seconds duration), the time.Format text of the layout encoders, nil and no-op functions remain parameters observed on a recording PrimitiveArrayEncoder',
+                 'time.Duration.String (stdlib, called by StringDurationEncoder) is modelled from its Go 1.23 source (format/fmtFrac/fmtInt) and compared on every run; Level.String/CapitalString texts are the regenerated 256-row table'],
  'technique': "Lean 4: console line shape by case analysis over all presence patterns; spaced context proved to parse to the same tree as the JSON encoder's (marked-tree induction); tie: byte-level correspondence",
  'level_text': "console_shape and ctx_valid hold for every configuration and field tree of the model; bytes are compared with the real console encoder and the context with the real JSON encoder's output for the same fields.",
- 'level_note': 'Column texts are fmt.Fprint of what the sub-encoders appended (parameters).',
+ 'level_note': 'Column texts of the exact built-in sub-encoders (level ×4, EpochNanos, Full/Short caller, FullName) are computed by the model (console_builtin_columns, console_level_column_injective); columns of the float / layout time encoders are fmt.Fprint of what they appended (parameters).',
 }
